@@ -28,6 +28,22 @@ check, and the theorems below are at full strength for the repaired code:
   * `C06_announce_after_answer`: once a headers message from the peer has been handled, an inv of an unknown block DOES
     produce getheaders(locator(tip), 0) — the duplicate filter was cleared by that message;
   * `C06_tick_keeps_passed_peer`: the watchdog keeps a sync peer we are at or ahead of.
+Forks and several peers (Proofs/SyncFork.lean, Proofs/SyncMulti.lean):
+  * `C06_fork`       ANY table satisfying C01's invariant, no checkpoint ahead, the node's answer "one reply that suffices"
+                     (decidable `OneReplySuffices`: known headers, then a linked, new, clean, positive-work branch on a
+                     connected row, ending with the node's tip, heavier than every other connected row): quiescent after
+                     two rounds, tip = node's tip, the branch LONGEST_CHAIN, labelling canonical (C01_inv_canon);
+  * `C06_no_lc_header_stops` / `_quiet`  the complement, for all states: no header of a batch on the longest chain
+                     (decidable `NoLcHeader`) ⇒ no getheaders at all, sync peer kept, tip unchanged;
+  * `C06_any_choice`, `C06_first_peer_any_order`, `C06_late_announcement`  whichever conformant candidate startSync
+                     picks, and whatever is announced afterwards in whatever order, the loop ends synced to the chosen
+                     node's chain (`C06_linear_from_any_round`);
+  * `C06_peer_loss_any_round`  the sync peer lost at ANY round with a pool of conformant candidates whose chains extend
+                     what is stored: for every pick one of them takes over and the loop ends synced to ITS chain;
+  * `C06_stalled_peer_replaced`  the same when the sync peer never answers and the watchdog tick + its done message
+                     remove it — provided it advertised more than we hold (otherwise finding C06-F4c);
+  * `C06_pool_stable`, `C06_pool_of_announcements`  those hypotheses survive every headers message of the sync peer and
+                     arise from announcements of conformant nodes.
 Two findings remain (KNOWN_FINDINGS C06-F4c, C06-X1); `C06_tick_keeps_exhausted_peer` states F4c for all states.
 `C06_unrequested_headers` and `C06_announce_filtered` describe rules that are still in the code (headers outside
 headers-first mode disconnect their sender; a repeat of a still unanswered request is dropped).
@@ -36,6 +52,8 @@ import BHS.Props.C01
 import BHS.Model.Sync
 import BHS.Model.Node
 import BHS.Proofs.SyncLinear
+import BHS.Proofs.SyncMulti
+import BHS.Proofs.SyncFork
 
 set_option linter.unusedSectionVars false
 
@@ -349,6 +367,217 @@ theorem C06_tick_drops_lagging_peer (cfg : Sync.Cfg H) (st : State H) (sp pick :
   simp only [ha]
   exact ⟨_, rfl⟩
 
+/-! ### the closed loop from any round -/
+
+/-- FROM ANY ROUND of a linear catch-up (the round invariant `LinInv` holds: `done` stored as one chain, the request
+    `req` out to the sync peer `p`): the closed loop with the node is quiescent after at most
+    ⌈|rest| / cap⌉ + |checkpoints| + 1 more rounds, the table synced to the node's chain -/
+theorem C06_linear_from_any_round (cfg : Sync.Cfg H) (g : Row H) (C : List (Src H)) (n : Node H) (p : Nat) (st : State H)
+    (done rest : List (Src H)) (req : List H × H) (hs : LinSetup cfg g C n) (hi : LinInv cfg g C p st done rest req) :
+    ∃ k st', k ≤ (rest.length + n.cap - 1) / n.cap + cfg.checkpoints.length + 1 ∧
+      rounds cfg n p k (st, some req) = (st', none) ∧ SyncedTo cfg.chain g C st'.store := by
+  obtain ⟨k, st', hk, hr, hsync⟩ := lin_rounds_tight hs _ _ done rest req rfl hi
+  have := potential_le cfg n.cap rest.length done.length
+  exact ⟨k, st', by omega, hr, hsync⟩
+
+/-! ### a competing fork -/
+
+/-- C06_fork, FULL STATEMENT for "one reply suffices". The table is ANY store satisfying C01's invariant (a prefix, a
+    stale fork, several branches, orphans …) with the root row on a previous-hash `z` nobody hashes to; the peer `p` is
+    connected and in the map, the engine is in headers-first mode with no checkpoint ahead, `req` is the outstanding
+    request. If the node's answer to `req` is "one reply that suffices" — `OneReplySuffices cfg st n req a`, a DECIDABLE
+    predicate (Proofs/SyncFork.lean): headers the table has, then a non-empty run that hangs linked on a connected row
+    `a` of the table, is new, clean, of positive work, ends with the node's tip and carries MORE cumulative work than
+    every other connected row — then the closed loop is quiescent after TWO rounds (the reply, then the node's empty
+    answer to the follow-up request), and
+      * the table is the old table with the reply ingested (`run`), every old row still there (hash, parent, rowid),
+      * the reported tip is the node's tip, LONGEST_CHAIN, with cumulative work `a.cum + Σ work(branch)`,
+      * every header of the adopted branch is LONGEST_CHAIN,
+      * C01's invariant holds, hence (C01_inv_canon) the labelling is canonical: LONGEST_CHAIN is exactly the
+        parent-linked path from that tip back to the root, everything else connected is STALE,
+      * and when the node's chain is linked from its genesis and its headers below the branch are rows of the table
+        (same hash and parent), EVERY header of the node's best chain is LONGEST_CHAIN.
+    `hnode`: the node's chain has distinct hashes different from its genesis hash. -/
+theorem C06_fork (cfg : Sync.Cfg H) (z : H) (hz : ∀ y, cfg.chain.hashOf y ≠ z) (st : State H) (n : Node H) (p : Nat)
+    (q : PeerSt H) (req : List H × H) (a : Row H) (hinv : Inv cfg.chain st.store)
+    (hroot : ∃ g ∈ st.store, g.id = 0 ∧ g.prev = z) (hq : lookup st.peers p = some q) (hin : q.inMap = true)
+    (hd : q.disc = false) (hf : st.headersFirst = true) (hcp : st.nextCp = none)
+    (hnode : (n.genesis :: n.chain.map cfg.chain.hashOf).Nodup)
+    (hone : OneReplySuffices cfg st n req a) :
+    ∃ st', rounds cfg n p 2 (st, some req) = (st', none) ∧
+      st'.store = run cfg.chain st.store (reply cfg.chain.hashOf n req.1 req.2) ∧
+      (∃ t, getTip st'.store = some t ∧ t.hash = lastHash cfg.chain.hashOf n.genesis n.chain ∧ t.st = .lc ∧
+        t.cum = cumAlong a.cum (forkNews cfg st n req)) ∧
+      Inv cfg.chain st'.store ∧ Canon st'.store ∧
+      (∀ x ∈ forkNews cfg st n req, ∃ r ∈ st'.store, r.hash = cfg.chain.hashOf x ∧ r.st = .lc) ∧
+      (∀ b ∈ st.store, ∃ b' ∈ st'.store, b'.hash = b.hash ∧ b'.prev = b.prev ∧ b'.id = b.id) ∧
+      (Linked cfg.chain.hashOf n.genesis n.chain →
+        (∀ x ∈ n.chain, x ∉ forkNews cfg st n req →
+          ∃ r ∈ st.store, r.hash = cfg.chain.hashOf x ∧ r.prev = x.prev ∧ r.id ≠ 0) →
+        ∀ x ∈ n.chain, ∃ r ∈ st'.store, r.hash = cfg.chain.hashOf x ∧ r.st = .lc) := by
+  obtain ⟨st', h1, h2, h3, h4, h5, h6, h7⟩ := fork_closed cfg z hz st n p q req a hinv hroot hq hin hd hf hcp hnode hone
+  exact ⟨st', h1, h2, h3, h4, C01.C01_inv_canon cfg.chain st'.store h4, h5, h6, h7⟩
+
+/-- THE COMPLEMENT, for ALL states and ALL batches (any cursor; forbidden headers and checkpoint contradictions
+    included): when no header of a headers message lands on the longest chain — `NoLcHeader`, DECIDABLE: each header is a
+    duplicate, refused, an orphan, or stored STALE because its branch does not carry more work than the tip's — the
+    manager sends NO getheaders to anybody (it stops asking that peer) and keeps its sync peer. This is the rule behind
+    the second half of finding C07-R1 (a branch that only ties within one reply is never completed). -/
+theorem C06_no_lc_header_stops (cfg : Sync.Cfg H) (st : State H) (p : Nat) (hs : List (Src H))
+    (hno : NoLcHeader cfg.chain st.store hs) :
+    (∀ a ∈ (handleHeaders cfg st p hs).2, ∀ p' loc stop, a ≠ Action.getheaders p' loc stop) ∧
+      (handleHeaders cfg st p hs).1.syncPeer = st.syncPeer :=
+  no_lc_no_request cfg st p hs hno
+
+/-- … and for a clean batch with no checkpoint ahead (the answer of a conformant node with a lighter or tying branch):
+    the batch is ingested, NOTHING is sent, the reported tip, the sync peer and the cursor are what they were -/
+theorem C06_no_lc_header_quiet (cfg : Sync.Cfg H) (st : State H) (p : Nat) (q : PeerSt H) (hs : List (Src H))
+    (hq : lookup st.peers p = some q) (hin : q.inMap = true) (hf : st.headersFirst = true) (hcp : st.nextCp = none)
+    (hclean : ∀ x ∈ hs, cfg.chain.hashOf x ∉ cfg.chain.forbidden) (hno : NoLcHeader cfg.chain st.store hs) :
+    (handleHeaders cfg st p hs).2 = [] ∧
+      (handleHeaders cfg st p hs).1.store = run cfg.chain st.store hs ∧
+      getTip (handleHeaders cfg st p hs).1.store = getTip st.store ∧
+      (handleHeaders cfg st p hs).1.syncPeer = st.syncPeer ∧ (handleHeaders cfg st p hs).1.nextCp = st.nextCp :=
+  no_lc_quiet cfg st p q hs hq hin hf hcp hclean hno
+
+/-! ### several peers
+
+`Pool cfg g C nodeOf ps p` (Proofs/SyncMulti.lean): the ids of the table `ps` are distinct, there is an entry other than
+`p` that is in the map and a candidate, and EVERY such entry is connected, was never asked, belongs to a conformant node
+`nodeOf id` (`LinSetup`) whose chain extends `C`, and advertised that chain's length. `StoreAt cfg g done st`: the table
+is the one chain `g :: done`, headers-first mode, cursor = first checkpoint above the tip. `pool_of_announcements` shows
+how a pool comes about (announcements of conformant nodes under new ids while a sync peer is at work). -/
+
+/-- (a) WHICHEVER CANDIDATE IS CHOSEN. No sync peer, the table holds `done`, the peer table is a pool of conformant
+    candidates whose chains extend `C = done ++ rest` (`p0`: any id not in the table — the pool predicate exempts one
+    id). For EVERY pick startSync chooses one of them, sends it exactly one request, and the closed loop with THAT node
+    is quiescent within ⌈missing / cap⌉ + |checkpoints| + 1 rounds, the table synced to ITS chain. -/
+theorem C06_any_choice (cfg : Sync.Cfg H) (g : Row H) (C done rest : List (Src H)) (nodeOf : Nat → Node H) (st : State H)
+    (p0 pick : Nat) (hC : C = done ++ rest) (hst : StoreAt cfg g done st) (hsync : st.syncPeer = none)
+    (hp0 : p0 ∉ st.peers.map (·.id)) (pool : Pool cfg g C nodeOf st.peers p0) :
+    ∃ r ∈ st.peers, ∃ ext req' k st', (nodeOf r.id).chain = C ++ ext ∧
+      (startSync cfg st pick).2 = [.getheaders r.id req'.1 req'.2] ∧
+      (startSync cfg st pick).1.syncPeer = some r.id ∧
+      k ≤ ((rest ++ ext).length + (nodeOf r.id).cap - 1) / (nodeOf r.id).cap + cfg.checkpoints.length + 1 ∧
+      rounds cfg (nodeOf r.id) r.id k ((startSync cfg st pick).1, some req') = (st', none) ∧
+      SyncedTo cfg.chain g (nodeOf r.id).chain st'.store := by
+  obtain ⟨r0, hr0, hne0, hin0, hc0⟩ := pool.some
+  have hasc := (pool.fresh r0 hr0 hne0 hin0 hc0).2.2.2.1.asc
+  have hnot : ∀ r ∈ st.peers, r.id ≠ p0 := fun r hr e => hp0 (List.mem_map.2 ⟨r, hr, e⟩)
+  rcases resync cfg g C done rest nodeOf st p0 pick hasc hC hst hsync pool (fun r hr e => absurd e (hnot r hr)) with
+    ⟨r, hr, _, ext, req', hext, hact, hsp, hinv, _, hsetup⟩ | ⟨_, _, _, _, _, r, hr, e, _⟩
+  · obtain ⟨k, st', hk, hrounds, hsynced⟩ := C06_linear_from_any_round cfg g _ _ r.id _ done (rest ++ ext) req' hsetup hinv
+    exact ⟨r, hr, ext, req', k, st', hext, hact, hsp, hk, hrounds, hsynced⟩
+  · exact absurd e (hnot r hr)
+
+/-- (a) ANY ORDER OF ANNOUNCEMENTS. `C06_linear` with any sequence `evs` of further announcements after the first
+    candidate's — other ids (new or re-used), candidates or not, any advertised heights, any picks, any order: they send
+    nothing, the first candidate stays the sync peer, and the closed loop with its node ends synced to its chain
+    within the same bound. -/
+theorem C06_first_peer_any_order (cfg : Sync.Cfg H) (g : Row H) (C : List (Src H)) (n : Node H) (p pick : Nat)
+    (hs : LinSetup cfg g C n) (hg : g.st = .lc) (hg0 : g.height = 0) (done rest : List (Src H)) (hsplit : C = done ++ rest)
+    (evs : List (Nat × Event H)) (hev : ∀ e ∈ evs, OtherAnnouncement p e.2) :
+    ∃ req k st',
+      (newPeer cfg (new cfg (run cfg.chain [g] done)) p true (C.length : Int) pick).2 = [.getheaders p req.1 req.2] ∧
+      (runEvents cfg (newPeer cfg (new cfg (run cfg.chain [g] done)) p true (C.length : Int) pick).1 evs).2 = [] ∧
+      (runEvents cfg (newPeer cfg (new cfg (run cfg.chain [g] done)) p true (C.length : Int) pick).1 evs).1.syncPeer = some p ∧
+      k ≤ (rest.length + n.cap - 1) / n.cap + cfg.checkpoints.length + 1 ∧
+      rounds cfg n p k
+        ((runEvents cfg (newPeer cfg (new cfg (run cfg.chain [g] done)) p true (C.length : Int) pick).1 evs).1, some req) = (st', none) ∧
+      SyncedTo cfg.chain g C st'.store := by
+  have hsub : ∀ x ∈ done, x ∈ C := fun x hx => by rw [hsplit]; exact List.mem_append_left _ hx
+  have hl : Linked cfg.chain.hashOf g.hash done := linked_prefix _ done rest _ (hsplit ▸ hs.linked)
+  have hn : (g.hash :: done.map cfg.chain.hashOf).Nodup := by
+    have hsubl : List.Sublist (g.hash :: done.map cfg.chain.hashOf) (g.hash :: C.map cfg.chain.hashOf) := by
+      rw [hsplit, List.map_append]
+      exact List.Sublist.cons_cons _ (List.sublist_append_left _ _)
+    exact List.Nodup.sublist hsubl hs.nodup
+  obtain ⟨t0, htop, hth, hthash, hmap⟩ := run_linear cfg.chain g done hg hl hn (fun x hx => hs.clean x (hsub x hx))
+    (fun x hx => hs.work x (hsub x hx))
+  rw [hg0, Nat.zero_add] at hth
+  obtain ⟨req, hact, hinv⟩ := lin_start hs p pick done rest hsplit _ t0 htop hth hthash hmap (Or.inr rfl)
+  have hlb : (Sync.tipHeight (run cfg.chain [g] done) : Int) ≤ (C.length : Int) := by
+    rw [htop.tipHeight_eq, hth, hsplit, List.length_append]; omega
+  obtain ⟨hsp, _⟩ := first_peer_table cfg (run cfg.chain [g] done) p pick (C.length : Int) hlb
+  obtain ⟨a1, a2, _, a4⟩ := announcements_other cfg g C p done rest req evs _ hsp hev hinv
+  obtain ⟨k, st', hk, hr, hsync⟩ := C06_linear_from_any_round cfg g C n p _ done rest req hs a4
+  exact ⟨req, k, st', hact, a1, a2, hk, hr, hsync⟩
+
+/-- (a) … also in the middle of the sync: at ANY round an announcement under another id sends nothing, leaves the sync
+    peer and the round invariant (hence `C06_linear_from_any_round`) as they are -/
+theorem C06_late_announcement (cfg : Sync.Cfg H) (g : Row H) (C : List (Src H)) (st : State H) (p p' : Nat) (c : Bool)
+    (lb : Int) (pick : Nat) (done rest : List (Src H)) (req : List H × H) (hsync : st.syncPeer = some p) (hne : p' ≠ p)
+    (hi : LinInv cfg g C p st done rest req) :
+    (newPeer cfg st p' c lb pick).2 = [] ∧ (newPeer cfg st p' c lb pick).1.syncPeer = some p ∧
+      (newPeer cfg st p' c lb pick).1.store = st.store ∧
+      LinInv cfg g C p (newPeer cfg st p' c lb pick).1 done rest req :=
+  newPeer_other cfg g C st p p' c lb pick done rest req hsync hne hi
+
+/-- the hypotheses of (b) and (c) are stable under the rounds of the sync peer and come about by announcements: a
+    headers message of `p` (any content) keeps the pool of the others and the sync peer; conformant nodes announced under
+    new distinct ids while `p` is the sync peer form a pool (nothing is sent, see `C06_first_peer_any_order`) -/
+theorem C06_pool_stable (cfg : Sync.Cfg H) (g : Row H) (C : List (Src H)) (nodeOf : Nat → Node H) (st : State H) (p : Nat)
+    (hs : List (Src H)) (pool : Pool cfg g C nodeOf st.peers p) :
+    Pool cfg g C nodeOf (handleHeaders cfg st p hs).1.peers p ∧ (handleHeaders cfg st p hs).1.syncPeer = st.syncPeer :=
+  pool.handleHeaders hs
+
+theorem C06_pool_of_announcements (cfg : Sync.Cfg H) (g : Row H) (C : List (Src H)) (nodeOf : Nat → Node H) (p : Nat)
+    (anns : List (Nat × Nat)) (st : State H) (hne : anns ≠ []) (hsync : st.syncPeer = some p)
+    (hp : st.peers.map (·.id) = [p]) (hnd : (p :: anns.map (·.1)).Nodup)
+    (hconf : ∀ a ∈ anns, LinSetup cfg g (nodeOf a.1).chain (nodeOf a.1) ∧ ∃ ext, (nodeOf a.1).chain = C ++ ext) :
+    Pool cfg g C nodeOf (runEvents cfg st (conformantAnnouncements nodeOf anns)).1.peers p := by
+  refine pool_of_announcements cfg g C nodeOf p anns st hne hsync (by rw [hp]; exact List.mem_singleton.2 rfl)
+    (by rw [hp]; exact hnd) ?_ hconf
+  intro r hr hne'
+  exact absurd (List.mem_singleton.1 (hp ▸ List.mem_map.2 ⟨r, hr, rfl⟩)) hne'
+
+/-- (b) THE SYNC PEER IS LOST AT ANY ROUND (`LinInv`: any stored prefix `done` of its chain `C`, its request out): its
+    done message arrives while the other candidates form a pool of conformant nodes whose chains extend WHAT IS STORED
+    (the same chain, a longer one, or another continuation of the stored prefix). For EVERY pick one of them becomes the
+    sync peer, gets exactly one request, and the closed loop with THAT node is quiescent within
+    ⌈missing / cap⌉ + |checkpoints| + 1 rounds, the table synced to ITS chain. -/
+theorem C06_peer_loss_any_round (cfg : Sync.Cfg H) (g : Row H) (C done rest : List (Src H)) (nodeOf : Nat → Node H)
+    (st : State H) (p pick : Nat) (req : List H × H) (hi : LinInv cfg g C p st done rest req)
+    (hsync : st.syncPeer = some p) (pool : Pool cfg g done nodeOf st.peers p) :
+    ∃ r ∈ st.peers, r.id ≠ p ∧ ∃ ext req' k st', (nodeOf r.id).chain = done ++ ext ∧
+      (donePeer cfg st p pick).2 = [.getheaders r.id req'.1 req'.2] ∧
+      (donePeer cfg st p pick).1.syncPeer = some r.id ∧
+      k ≤ (ext.length + (nodeOf r.id).cap - 1) / (nodeOf r.id).cap + cfg.checkpoints.length + 1 ∧
+      rounds cfg (nodeOf r.id) r.id k ((donePeer cfg st p pick).1, some req') = (st', none) ∧
+      SyncedTo cfg.chain g (nodeOf r.id).chain st'.store := by
+  obtain ⟨r0, hr0, hne0, hin0, hc0⟩ := pool.some
+  have hasc := (pool.fresh r0 hr0 hne0 hin0 hc0).2.2.2.1.asc
+  obtain ⟨_, q, _, _, _, _, hq, hin, _⟩ := hi.core
+  obtain ⟨r, hr, hne, ext, req', hext, hact, hsp, hinv, hsetup⟩ :=
+    done_resync cfg g done done [] nodeOf st p pick q hasc (List.append_nil _).symm hi.storeAt hsync hq hin pool
+  obtain ⟨k, st', hk, hrounds, hsynced⟩ := C06_linear_from_any_round cfg g _ _ r.id _ done ([] ++ ext) req' hsetup hinv
+  exact ⟨r, hr, hne, ext, req', k, st', hext, hact, hsp, hk, hrounds, hsynced⟩
+
+/-- (c) THE SYNC PEER STALLS at any round (it never answers `req`): the watchdog tick finds it stale, later its done
+    message arrives. If it advertised MORE than the table holds (`hadv` — a peer that advertised exactly what we have is
+    kept by the watchdog however many better candidates are connected: finding C06-F4c, `C06_tick_keeps_exhausted_peer`)
+    and the other candidates form a pool of conformant nodes whose chains extend what is stored, then for EVERY pair of
+    picks: the stalled peer is disconnected, exactly one request goes out — to one of those candidates — and the closed
+    loop with THAT node is quiescent within ⌈missing / cap⌉ + |checkpoints| + 1 rounds, the table synced to ITS chain. -/
+theorem C06_stalled_peer_replaced (cfg : Sync.Cfg H) (g : Row H) (C done rest : List (Src H)) (nodeOf : Nat → Node H)
+    (st : State H) (p pick1 pick2 : Nat) (req : List H × H) (q : PeerSt H) (hi : LinInv cfg g C p st done rest req)
+    (hsync : st.syncPeer = some p) (hq : lookup st.peers p = some q) (hadv : (done.length : Int) < q.lastBlock)
+    (pool : Pool cfg g done nodeOf st.peers p) :
+    ∃ r ∈ st.peers, r.id ≠ p ∧ ∃ ext req' k st', (nodeOf r.id).chain = done ++ ext ∧
+      (tick cfg st true pick1).2 ++ (donePeer cfg (tick cfg st true pick1).1 p pick2).2 =
+        [.disconnect p, .getheaders r.id req'.1 req'.2] ∧
+      (donePeer cfg (tick cfg st true pick1).1 p pick2).1.syncPeer = some r.id ∧
+      k ≤ (ext.length + (nodeOf r.id).cap - 1) / (nodeOf r.id).cap + cfg.checkpoints.length + 1 ∧
+      rounds cfg (nodeOf r.id) r.id k ((donePeer cfg (tick cfg st true pick1).1 p pick2).1, some req') = (st', none) ∧
+      SyncedTo cfg.chain g (nodeOf r.id).chain st'.store := by
+  obtain ⟨r0, hr0, hne0, hin0, hc0⟩ := pool.some
+  have hasc := (pool.fresh r0 hr0 hne0 hin0 hc0).2.2.2.1.asc
+  have hi' : LinInv cfg g done p st done [] req := ⟨(List.append_nil _).symm, hi.hf, hi.cursor, hi.stop, hi.core⟩
+  obtain ⟨r, hr, hne, ext, req', hext, hact, hsp, hinv, hsetup⟩ :=
+    stall_resync cfg g done done [] nodeOf st p pick1 pick2 req q hasc hi' hsync hq hadv pool
+  obtain ⟨k, st', hk, hrounds, hsynced⟩ := C06_linear_from_any_round cfg g _ _ r.id _ done ([] ++ ext) req' hsetup hinv
+  exact ⟨r, hr, hne, ext, req', k, st', hext, hact, hsp, hk, hrounds, hsynced⟩
+
 /-! ### non-vacuity and the remaining counterexample: a concrete chain over `H := Nat` (toy hash `nonce + 1`) -/
 
 /-- four headers on C01's root (hash 1000): hashes 11, 12, 13, 14 at heights 1..4 -/
@@ -415,5 +644,71 @@ theorem C06_checkpoint_cursor_counterexample :
   decide
 
 example : ∃ b, (locator [C01.exRoot]).head? = some b := ⟨1000, by decide⟩
+
+/-! ### forks and several peers on concrete trees -/
+
+def exForkCfg : Sync.Cfg Nat := { chain := C01.exCfg, zero := 0, checkpoints := [], disableCp := false, now := 100 }
+
+/-- the node's best chain: a branch of three headers (hashes 21, 22, 23) on the root -/
+def exForkNode : Node Nat := { genesis := 1000, chain := [C01.exSrc 1000 20, C01.exSrc 21 21, C01.exSrc 22 22], cap := 2000 }
+
+/-- the table: root, then the branch 11, 12 (two headers: LONGEST_CHAIN) -/
+def exForkStore : Store Nat := run C01.exCfg [C01.exRoot] [C01.exSrc 1000 10, C01.exSrc 11 11]
+
+def exForkSt : State Nat := (newPeer exForkCfg (new exForkCfg exForkStore) 7 true 3 0).1
+
+/-- `C06_fork` is not vacuous: the request is getheaders([12, 11, 1000], 0); the node finds only its genesis in the
+    locator and answers with its whole branch, which hangs on the root and outweighs the stored branch … -/
+example : (newPeer exForkCfg (new exForkCfg exForkStore) 7 true 3 0).2 = [.getheaders 7 [12, 11, 1000] 0] ∧
+    OneReplySuffices exForkCfg exForkSt exForkNode ([12, 11, 1000], 0) C01.exRoot := by decide
+
+/-- … and the two rounds of the theorem, computed: quiescent, the node's branch LONGEST_CHAIN, the old branch STALE -/
+example : (rounds exForkCfg exForkNode 7 2 (exForkSt, some ([12, 11, 1000], 0))).2 = none ∧
+    (rounds exForkCfg exForkNode 7 2 (exForkSt, some ([12, 11, 1000], 0))).1.store.map (fun r => (r.hash, r.st)) =
+      [(1000, .lc), (11, .stale), (12, .stale), (21, .lc), (22, .lc), (23, .lc)] := by decide
+
+/-- a table that already holds the first header of the node's branch as a STALE fork (root, 11, 21 stale, 12): the reply
+    starts with that known header, the fork point `a` is its stale row, the two new headers outweigh the stored tip -/
+def exForkStore2 : Store Nat := run C01.exCfg [C01.exRoot] [C01.exSrc 1000 10, C01.exSrc 1000 20, C01.exSrc 11 11]
+
+def exForkSt2 : State Nat := (newPeer exForkCfg (new exForkCfg exForkStore2) 7 true 3 0).1
+
+example : ∃ a ∈ exForkSt2.store, a.hash = 21 ∧ a.st = .stale ∧
+    OneReplySuffices exForkCfg exForkSt2 exForkNode ([12, 11, 1000], 0) a := by decide
+
+/-- the complement on a concrete tree: a node whose branch (21, 22) only TIES with the stored one (11, 12): no header of
+    its answer lands on the longest chain, nothing is sent, the tip stays 12 — the table now holds the tying branch as
+    STALE and this peer is not asked again (`C06_no_lc_header_stops`, `C06_no_lc_header_quiet`) -/
+def exTieNode : Node Nat := { genesis := 1000, chain := [C01.exSrc 1000 20, C01.exSrc 21 21], cap := 2000 }
+
+example : NoLcHeader C01.exCfg exForkSt.store (reply C01.exCfg.hashOf exTieNode [12, 11, 1000] 0) ∧
+    (handleHeaders exForkCfg exForkSt 7 (reply C01.exCfg.hashOf exTieNode [12, 11, 1000] 0)).2 = [] ∧
+    (handleHeaders exForkCfg exForkSt 7 (reply C01.exCfg.hashOf exTieNode [12, 11, 1000] 0)).1.store.map (fun r => (r.hash, r.st)) =
+      [(1000, .lc), (11, .lc), (12, .lc), (21, .stale), (22, .stale)] := by decide
+
+/-- (a), (b) computed on the example chain (checkpoints at 2 and 4, cap 3): peer 7 is announced and asked, peer 8 is
+    announced (nothing is sent), 7 answers its first request, then 7 is lost: 8 gets the request the cursor calls for and
+    the loop with 8's node ends with the whole chain -/
+example :
+    let cfg := exCfg false
+    let s1 := (newPeer cfg (newPeer cfg (new cfg [C01.exRoot]) 7 true 4 0).1 8 true 4 5)
+    let s2 := handleHeaders cfg s1.1 7 (reply C01.exCfg.hashOf (exNode 3) [1000] 12)
+    let s3 := donePeer cfg s2.1 7 9
+    s1.2 = [] ∧ s2.2 = [.getheaders 7 [12] 14] ∧ s3.2 = [.getheaders 8 [12, 11, 1000] 14] ∧ s3.1.syncPeer = some 8 ∧
+      (rounds cfg (exNode 3) 8 3 (s3.1, some ([12, 11, 1000], 14))).2 = none ∧
+      (rounds cfg (exNode 3) 8 3 (s3.1, some ([12, 11, 1000], 14))).1.store.map (·.hash) = [1000, 11, 12, 13, 14] := by
+  decide
+
+/-- (c) computed: instead of being lost, 7 stalls: the stale tick disconnects it (with this pick it first re-selects the
+    dead entry, silently — the entry stays a candidate until its done message), the done message hands over to 8 -/
+example :
+    let cfg := exCfg false
+    let s1 := (newPeer cfg (newPeer cfg (new cfg [C01.exRoot]) 7 true 4 0).1 8 true 4 5)
+    let s2 := handleHeaders cfg s1.1 7 (reply C01.exCfg.hashOf (exNode 3) [1000] 12)
+    let s3 := tick cfg s2.1 true 4
+    let s4 := donePeer cfg s3.1 7 9
+    s3.2 = [.disconnect 7] ∧ s4.2 = [.getheaders 8 [12, 11, 1000] 14] ∧ s4.1.syncPeer = some 8 ∧
+      (rounds cfg (exNode 3) 8 3 (s4.1, some ([12, 11, 1000], 14))).1.store.map (·.hash) = [1000, 11, 12, 13, 14] := by
+  decide
 
 end BHS.Props.C06
